@@ -7,8 +7,8 @@ from . import cstr
 KM = ["NumericString", "PrintableString", "VisibleString", "IA5String", "BMPString", "UniversalString"]
 # slices: (name, MaxOperands, MaxStrLen, KMTypes, OtherTypes)
 SLICES = {
-    "quick": [("two-operands", 2, 1, "KMquick", "OtherQuick")],
-    "thorough": [("two-operands-all-types", 2, 1, "KM", "Other"), ("three-operands", 3, 1, "KMquick", "OtherQuick")],
+    "quick": [("two-operands", 2, 1, "KMquick", "OtherQuick"), ("long-strings", 1, 3, "KMgap", "NoOther")],
+    "thorough": [("two-operands-all-types", 2, 1, "KM", "Other"), ("three-operands", 3, 1, "KMquick", "OtherQuick"), ("long-strings", 1, 3, "KMgap", "NoOther")],
 }
 
 
@@ -52,7 +52,7 @@ def check(tier):
     seen, cases = set(), []
     for sl in SLICES[tier]:
         res = core.tlc("mc/MC_C15.tla", mc_cfg(run, sl), workers=8 if tier == "quick" else 16, coverage=True, timeout=3000, xmx="16g")
-        core.check_coverage(res)
+        core.check_coverage(res, ignore=("AddOperand",) if sl[1] == 1 else ())
         run.add_tlc(res, f"Alphabet laws, slice {sl[0]}: MaxOperands={sl[1]} MaxStrLen={sl[2]} {sl[3]} {sl[4]}")
         for c in res.printed("CASE"):
             key = json.dumps(c, sort_keys=True)
